@@ -37,6 +37,17 @@ def run():
     ck.add_traces('TraceApi(guarded)', res, 'public hash calls with guarded scratchpad, input ending at a page end (lengths 0,1,14,26,65,127,128,129,200...), output before a guard page with canary')
     for rj in res['rejected']:
         ck.violation('api:' + rj['line'][:80].replace('"', ''), 'guarded API call rejected: %s' % rj['line'][:300], {'tlc': rj['tlc']})
+    # the dataset writer: randomx_init_dataset on ranges that end at / near the last item, dataset extent between inaccessible pages
+    exe = vlib.build_harness('rx_ds', extra=['-fno-access-control'])
+    dlines = []
+    for jit in (0, 1):
+        outp = os.path.join(wd, 'dsend%d.ndjson' % jit)
+        dlines += vlib.run_harness([exe, '--seed', str(ck.seed), '--tier', ck.tier, '--jit', str(jit), '--part', 'end', '--out', outp], outp, timeout=1500)
+    dres = vlib.validate_sharded('TraceDataset', 'TraceDataset.cfg', dlines, 'c06ds', shards=8, timeout=900)
+    ck.add_traces('TraceDataset(guarded end)', dres, 'randomx_init_dataset for every count 0..13 (and larger) x start alignment ending at or just before the last item, interpreted and compiled initialiser, extent followed by an inaccessible page and preceded by a canary')
+    for rj in dres['rejected']:
+        ck.violation('dataset-init:' + rj['line'][:90].replace('"', ''), 'dataset initialisation outside the requested range / extent: %s' % rj['line'][:300], rj)
+    ck.cov['guarded_dataset_init_calls'] = sum(1 for l in dlines if l.startswith('{"e":"init"'))
     runs = [json.loads(l) for l in lines if l.startswith('{"e":"run"')]
     ck.cov['evaluations'] = len(runs) + sum(1 for l in lines if l.startswith('{"e":"codegen"')) + sum(1 for l in alines if l.startswith('{"e":"Hash'))
     ck.cov['distinct_nontrivial'] = sum(1 for r in runs if r.get('first')) + sum(1 for l in lines if l.startswith('{"e":"codegen"'))
@@ -50,7 +61,7 @@ def run():
     ck.sample([l for l in lines if l.startswith('{"e":"codegen"')][0])
     ck.sample({k: (v if len(str(v)) < 160 else str(v)[:160]) for k, v in runs[0].items()})
     ck.assumptions += ['memory safety is observed through guard pages and write-set equality, not proved; reads that stay inside another mapped buffer of the library cannot fault',
-                       'cache (light mode) bounds are exercised through the public API runs only']
+                       'cache (light mode) bounds are exercised through the public API runs only', 'dataset writes are observed at the end of the extent (guard page) and around each requested range (pattern fill), not over the whole 2 GiB']
     if not ck.violations:
         shutil.rmtree(wd, ignore_errors=True)
     return ck.finish()
